@@ -184,6 +184,9 @@ pub struct MahaCase {
     pub x: Vec<f64>,
     pub y: Vec<f64>,
     pub z: Vec<f64>,
+    /// the three points are multiplied by 2^log2_scale (tiny and large magnitudes, nearly coincident points)
+    #[serde(default)]
+    pub log2_scale: i32,
 }
 
 /// n x (n-1) matrix with orthonormal columns orthogonal to the all-ones vector
@@ -218,16 +221,18 @@ fn strat_maha(_t: Tier) -> BoxedStrategy<MahaCase> {
                     .boxed(),
                 _ => (spectrum(d, 2.0 * lc).prop_flat_map(sym_from_eigs), pow2(-6, 6)).prop_map(|(a, s)| (a.scale(s), false, false)).boxed(),
             };
-            (m, triple(d), Just(f32))
+            (m, triple(d), Just(f32), prop_oneof![2 => Just(0i32), 1 => -40i32..=20, 1 => -30i32..=-20])
         })
-        .prop_map(|((m, from_data, identity), (x, y, z), f32)| MahaCase { f32, m, from_data, identity, x, y, z })
+        .prop_map(|((m, from_data, identity), (x, y, z), f32, k)| MahaCase { f32, m, from_data, identity, x, y, z, log2_scale: if f32 { k.max(-20).min(10) } else { k } })
         .boxed()
 }
 
 fn maha_run<T: RealNumber>(case: &MahaCase, ctx: &mut Ctx) -> Result<(), Fail> {
     let g = |v: &Vec<f64>| -> Vec<f64> { v.iter().map(|a| ft::<T>(tf::<T>(*a))).collect() };
+    let sc = 2f64.powi(case.log2_scale);
+    let gs = |v: &Vec<f64>| -> Vec<f64> { v.iter().map(|a| ft::<T>(tf::<T>(*a * sc))).collect() };
     let m = Mat { r: case.m.r, c: case.m.c, d: g(&case.m.d) };
-    let (x, y, z) = (g(&case.x), g(&case.y), g(&case.z));
+    let (x, y, z) = (gs(&case.x), gs(&case.y), gs(&case.z));
     let dm: DenseMatrix<T> = <DenseB as Build<T>>::build(&m);
     let dist: Mahalanobis<T, DenseMatrix<T>> = no_panic("mahalanobis/new", || if case.from_data { Distances::mahalanobis(&dm) } else { Mahalanobis::new_from_covariance(&dm) })?;
     // reference covariance
@@ -252,6 +257,7 @@ fn maha_run<T: RealNumber>(case: &MahaCase, ctx: &mut Ctx) -> Result<(), Fail> {
     ensure!(dxx == 0.0, "mahalanobis/identity", "d(x,x) = {:e}", dxx);
     ensure!(dxy >= 0.0 && dyz >= 0.0 && dxz >= 0.0, "mahalanobis/negative", "negative or NaN distance {:e} {:e} {:e}", dxy, dyz, dxz);
     ctx.bound("mahalanobis/symmetry", (dxy - dyx).abs(), 1e-10 * dxy.max(f64::MIN_POSITIVE))?;
+    ensure!((dxy == 0.0) == (x == y), "mahalanobis/zero-iff-equal", "d(x,y) = {:e} for x {} y (x = {:?}, y = {:?})", dxy, if x == y { "==" } else { "!=" }, x, y);
     let exy = refd(&x, &y);
     ctx.bound("mahalanobis/closed-form", (dxy - exy).abs(), rel * exy)?;
     ensure!(dxz <= dxy + dyz + rel * (dxy + dyz + dxz), "mahalanobis/triangle", "d(x,z) = {:e} > {:e} + {:e}", dxz, dxy, dyz);
@@ -266,6 +272,7 @@ fn check_maha(case: &MahaCase, ctx: &mut Ctx) -> Result<(), Fail> {
     ctx.nontrivial(case.x.len() >= 2 && noncollinear(&case.x, &case.y, &case.z));
     ctx.label(if case.identity { "identity-covariance" } else if case.from_data { "from-data" } else { "from-covariance" });
     ctx.label_if(case.f32, "f32");
+    ctx.label_if(case.log2_scale <= -20, "tiny-magnitude");
     if case.f32 {
         maha_run::<f32>(case, ctx)
     } else {
